@@ -980,8 +980,31 @@ class World:
                            args=args if name.startswith('send_') else None)
                 for cb in cbs.get(name, ()):
                     cb(inst, *args, **kw)
-                return orig(*args, **kw)
+                result = orig(*args, **kw)
+                for cb in cbs.get(name + ':after', ()):
+                    cb(inst, *args, **kw)
+                return result
             setattr(obj, attr, wrapper)
+
+        def wrap_quiet(obj, attr, name):
+            # frequent entry points: no event record, callbacks before and after
+            orig = getattr(obj, attr)
+            cbs = world.hook_cbs
+
+            def wrapper(*args, **kw):
+                for cb in cbs.get(name, ()):
+                    cb(inst, *args, **kw)
+                result = orig(*args, **kw)
+                for cb in cbs.get(name + ':after', ()):
+                    cb(inst, *args, **kw)
+                return result
+            setattr(obj, attr, wrapper)
+
+        wrap_quiet(sv.fsm, 'on_timer_event', 'fsm_timer')
+        wrap_quiet(sv.context, 'on_tick_event', 'ctx_tick')
+        wrap_quiet(sv.context, 'on_local_tick_event', 'ctx_local_tick')
+        wrap_quiet(sv.context, 'on_timer_event', 'ctx_timer')
+        wrap_quiet(sv.context, 'on_instance_failure', 'ctx_instance_failure')
 
         for attr in ('send_start_process', 'send_stop_process', 'send_restart', 'send_shutdown',
                      'send_restart_all', 'send_shutdown_all', 'send_check_instance', 'send_state_event'):
